@@ -5,6 +5,7 @@ CONSTANTS
   MaxM = 2
   MaxTotal = 3
   ZeroPairs = "split"
+  WithTwins = TRUE
   ExportAt = "matrix"
 CONSTRAINT Export
 INVARIANT ImplCover
